@@ -401,6 +401,25 @@ def _child(wfd, root, argv, cwd, kspec, inject, env, pre, post, want_events, aft
         os._exit(0)
 
 
+UNPRIVILEGED_UID = 65534
+
+
+def chown_tree(root, uid=UNPRIVILEGED_UID):
+    """Hand a scratch project to the unprivileged user (the harness runs as root, for which permission bits mean nothing)."""
+    for dp, dn, fn in os.walk(root):
+        os.lchown(dp, uid, uid)
+        for n in fn + [d for d in dn if os.path.islink(os.path.join(dp, d))]:
+            os.lchown(os.path.join(dp, n), uid, uid)
+
+
+def drop_privileges(res=None, uid=UNPRIVILEGED_UID):
+    """`pre` hook for run_cond: the forked child continues as an ordinary user."""
+    os.setgroups([])
+    os.setgid(uid)
+    os.setuid(uid)
+    os.environ["HOME"] = "/nonexistent"
+
+
 LINE_BUDGET = 1000000
 _HANG_SEEN = [False]
 
